@@ -275,8 +275,19 @@ impl<'a> Walk<'a> {
                 IgnoreStack::new(self.log)
             };
 
+            // The path patterns may describe the files below an input path as given.
+            // All input paths have to be known before the first file is matched, otherwise
+            // the result would depend on the order in which the files are found.
+            let roots: Vec<Path> = roots
+                .into_iter()
+                .map(|p| {
+                    let given = self.base_dir.resolve(&p);
+                    let p = self.absolute(p);
+                    self.path_selector.add_input_path(&given, &p);
+                    p
+                })
+                .collect();
             for p in roots.into_iter() {
-                let p = self.absolute(p);
                 let ignore = ignore.clone();
                 match fs::metadata(p.to_path_buf()) {
                     Ok(metadata) if metadata.is_dir() && self.depth == 0 => self.log_warn(format!(
